@@ -631,3 +631,56 @@ def rescaled_horosphere_intersections(tier, rng, rep):
             rep.case(key=(t, pat), nontrivial=min(pat) < 0, sample=inp if (t, pat) == (0, (1, -1, 1, 1)) else None)
             if len(rep.failures) >= 3:
                 return
+
+
+@bounded(P, "rescaled_isometry_matrices", functions=[H + "Isometry._fixpoint_data", H + "Isometry.fixed_point", H + "Isometry.fixed_point_pair", H + "Isometry.axis", "geometry_tools/projective.py:Transformation.apply"],
+         note="an isometry given by the matrix c M for any non-zero c (negative included) is the same projective map: images of points, fixed points of loxodromics (attracting first), "
+              "fixed points of elliptics and the axis do not depend on c")
+def rescaled_isometry_matrices(tier, rng, rep):
+    N = 80 if tier == 'thorough' else 20
+    rep.rule = "n = 2, 3; conjugated standard loxodromics (parameter 1.5..6 and its inverse) and rotations; factors 1, -1, -0.3, 2.5, -6.5; single and composite (3,)"
+    rep.bound = f"{N} isometries x 5 factors"
+    for t in range(N):
+        n = 2 + t % 2
+        kind = "loxodromic" if t % 3 else "elliptic"
+        shape = () if t % 2 else (3,)
+        mats = []
+        for _ in range(int(np.prod(shape)) or 1):
+            C = h.Point((lambda w: w / np.linalg.norm(w) * rng.uniform(0.1, 0.8))(rng.normal(size=n)), model="klein").origin_to()
+            base = h.Isometry.standard_loxodromic(n, float(rng.uniform(1.5, 6) ** rng.choice([-1, 1]))) if kind == "loxodromic" else h.Isometry.standard_rotation(rng.uniform(0.4, 2.7), dimension=n)
+            mats.append(np.asarray((C @ base @ C.inv()).proj_data, dtype=float))
+        M = np.array(mats).reshape(shape + (n + 1, n + 1))
+        x = rng.normal(size=n); x = x / np.linalg.norm(x) * 0.4
+
+        def proj_same(a, b):
+            a, b = np.asarray(a, dtype=float), np.asarray(b, dtype=float)
+            if a.shape != b.shape or not np.all(np.isfinite(a)):
+                return False
+            m = a[..., :, None] * b[..., None, :]
+            return bool(np.all(np.abs(m - np.swapaxes(m, -1, -2)) <= 1e-6 * np.maximum(1e-300, np.max(np.abs(m), axis=(-1, -2), keepdims=True))))
+        ref_iso = h.Isometry(M.copy())
+        ref = {"image": (ref_iso @ h.Point(x.copy(), model="klein")).proj_data}
+        if kind == "loxodromic":
+            ref["fixed_point"] = ref_iso.fixed_point().proj_data
+            ref["fixed_point_pair"] = ref_iso.fixed_point_pair().proj_data
+            ref["axis"] = ref_iso.axis().proj_data
+        elif n == 2:
+            ref["fixed_point"] = ref_iso.fixed_point().proj_data
+        for c in (1.0, -1.0, -0.3, 2.5, -6.5):
+            inp = {"n": n, "kind": kind, "shape": list(shape), "factor": c, "matrix": M.tolist()}
+
+            def body():
+                T = h.Isometry((c * M).copy())
+                got = {"image": (T @ h.Point(x.copy(), model="klein")).proj_data}
+                if "fixed_point" in ref:
+                    got["fixed_point"] = T.fixed_point().proj_data
+                if "fixed_point_pair" in ref:
+                    got["fixed_point_pair"] = T.fixed_point_pair().proj_data
+                    got["axis"] = T.axis().proj_data
+                for key in ref:
+                    if not proj_same(got[key], ref[key]):
+                        rep.fail("same_projective_map_for_every_factor", f"{kind}, matrix multiplied by {c}: {key} differs (attracting / repelling endpoints exchanged?)", {**inp, "output": key}); return
+            rep.attempt("entry_point_runs", inp, body)
+            rep.case(key=(t, c), nontrivial=c < 0, sample=inp if (t, c) == (1, -1.0) else None)
+            if len(rep.failures) >= 3:
+                return
